@@ -87,6 +87,7 @@ type Executor struct {
 	typeObjs map[string]types.Type
 	initSkip func(fn *ssa.Function) bool
 	Params   map[string]int
+	ShardBits, ShardID int
 }
 
 func NewExecutor(prog *ssa.Program, solver *smt.Session) *Executor {
@@ -319,6 +320,17 @@ func (ex *Executor) branch(st *State, c *smt.Term) bool {
 	if rT == smt.Unknown || rF == smt.Unknown {
 		ex.Stats.Unknown++
 		st.Tainted = true
+	}
+	if st.ForkDepth < ex.ShardBits {
+		// sharded exploration: this process follows one side of the first ShardBits two-sided forks
+		bit := (ex.ShardID >> uint(st.ForkDepth)) & 1
+		st.ForkDepth++
+		if bit == 1 {
+			st.addPC(c)
+			return true
+		}
+		st.addPC(nc)
+		return false
 	}
 	ex.Stats.Forks++
 	other := st.clone()
@@ -1461,7 +1473,7 @@ func (ex *Executor) nextOp(st *State, f *Frame, in *ssa.Next) {
 		ex.setReg(f, in, TupleV{smt.True, k, v})
 		return
 	}
-	ex.setReg(f, in, TupleV{smt.False, ex.zero(tt.At(1).Type()), ex.zero(tt.At(2).Type())})
+	ex.setReg(f, in, TupleV{smt.False, ex.zeroOrNil(tt.At(1).Type()), ex.zeroOrNil(tt.At(2).Type())})
 }
 
 func sameVal(a, b Val) bool {
@@ -1686,4 +1698,11 @@ func (ex *Executor) RunInit(pkg *ssa.Package) {
 		}
 	}
 	ex.work = nil
+}
+
+func (ex *Executor) zeroOrNil(t types.Type) Val {
+	if b, ok := t.(*types.Basic); ok && b.Kind() == types.Invalid {
+		return nil
+	}
+	return ex.zero(t)
 }
